@@ -6,7 +6,7 @@
    All theorems quantify over every well-founded (acyclic, post-order numbered) object graph, every field path (any
    nesting depth) and every call descriptor; "call_top ... = Some" excludes only dangling ids and a cyclic graph, on
    which python raises RecursionError and the model runs out of fuel (C18_cycle_example). *)
-From MrVerif Require Import Base.Prelude Model.MoveData Proofs.MoveDataProofs.
+From MrVerif Require Import Base.Prelude Model.MoveData Proofs.MoveDataProofs Proofs.MoveDataTotal.
 Local Open Scope nat_scope.
 
 (* the three argument parsers of to() and the shortcuts hand these (dtype, copy) to _to *)
@@ -110,6 +110,13 @@ Proof.
   - vm_compute. split; [reflexivity|discriminate].
 Qed.
 Print Assumptions C18_source_modified_nocopy_refuted.
+
+(* the hypothesis `call_top ... = Some` of the theorems above is satisfiable on every acyclic graph whose
+   SpatialDimensions hold tensors / plain values: the call returns (the fuel never runs out) *)
+Theorem C18_total : forall a h ns root, wf_heap h -> spatial_ok h -> root < length h ->
+  exists r h', call_top a h ns root = Some (r, h').
+Proof. exact call_total. Qed.
+Print Assumptions C18_total.
 
 (* non-vacuity: a KData-like graph: header {spatial [t0 t0 t1], rotation module, dict}, data (complex), traj {t0, view of t1};
    double(copy=True): all float/complex at P64, the int tensor untouched, sharing of t0 kept outside the spatial *)
